@@ -216,7 +216,7 @@ func c11Batches(r *mon.Run) []litBatch {
 		add("uint16", step == 1, b)
 	}
 	// wider integers: boundaries, powers of two +-1, decimal-length boundaries, random
-	nRand := r.Pick(1500, 40000)
+	nRand := r.Pick(1500, 200000)
 	rnd := r.Rand("C11/ints", 0)
 	signed := func(bits uint, conv func(int64) interface{}) []interface{} {
 		var vs []interface{}
@@ -276,7 +276,7 @@ func c11Batches(r *mon.Run) []litBatch {
 	add("uint64", false, unsigned(64, func(x uint64) interface{} { return x }))
 	add("uintptr", false, unsigned(64, func(x uint64) interface{} { return uintptr(x) }))
 
-	f64 := c11Floats(r.Rand("C11/f64", 0), r.Pick(6000, 150000))
+	f64 := c11Floats(r.Rand("C11/f64", 0), r.Pick(6000, 600000))
 	var f64v, f32v, c128v, c64v []interface{}
 	for _, f := range f64 {
 		f64v = append(f64v, f)
@@ -290,14 +290,14 @@ func c11Batches(r *mon.Run) []litBatch {
 		f32v = append(f32v, g)
 	}
 	rc := r.Rand("C11/f32bits", 0)
-	for i := 0; i < r.Pick(2000, 60000); i++ {
+	for i := 0; i < r.Pick(2000, 300000); i++ {
 		g := math.Float32frombits(rc.Uint32())
 		if !math.IsNaN(float64(g)) && !math.IsInf(float64(g), 0) {
 			f32v = append(f32v, g)
 		}
 	}
 	rcx := r.Rand("C11/complex", 0)
-	for i := 0; i < r.Pick(3000, 80000); i++ {
+	for i := 0; i < r.Pick(3000, 300000); i++ {
 		a, b := f64[rcx.Intn(len(f64))], f64[rcx.Intn(len(f64))]
 		c128v = append(c128v, complex(a, b))
 		a32, b32 := float32(a), float32(b)
